@@ -420,3 +420,101 @@ where
         (runnable, cancel_token)
     }
 }
+
+/// Safe façade over the task handles for the verification harness (V1).
+///
+/// Runnables are delivered to a process-wide queue indexed by the task tag
+/// (scheduling functions cannot capture state).
+#[cfg(nexosim_verif)]
+#[allow(missing_docs)]
+pub mod verif_task {
+    use std::collections::HashMap;
+    use std::future::Future;
+    use std::sync::Mutex;
+
+    use super::promise::Stage;
+    use super::{CancelToken, Promise, Runnable};
+
+    static QUEUES: Mutex<Option<HashMap<usize, Vec<Runnable>>>> = Mutex::new(None);
+
+    fn schedule(runnable: Runnable, tag: usize) {
+        let mut q = QUEUES.lock().unwrap();
+        q.get_or_insert_with(HashMap::new)
+            .entry(tag)
+            .or_default()
+            .push(runnable);
+    }
+
+    pub struct VRunnable(Runnable);
+    pub struct VCancel(CancelToken);
+    pub struct VPromise(Promise<u64>);
+
+    #[derive(Debug, Clone, Copy, PartialEq, Eq)]
+    pub enum VStage {
+        Ready(u64),
+        Pending,
+        Cancelled,
+    }
+
+    /// Spawns a task; its first Runnable is put in the queue of `tag`.
+    pub fn spawn<F>(future: F, tag: usize) -> (VPromise, VCancel)
+    where
+        F: Future<Output = u64> + Send + 'static,
+    {
+        let (promise, runnable, cancel) = super::spawn(future, schedule, tag);
+        schedule(runnable, tag);
+
+        (VPromise(promise), VCancel(cancel))
+    }
+
+    /// Same with `spawn_and_forget`.
+    pub fn spawn_and_forget<F>(future: F, tag: usize) -> VCancel
+    where
+        F: Future<Output = u64> + Send + 'static,
+    {
+        let (runnable, cancel) = super::spawn_and_forget(future, schedule, tag);
+        schedule(runnable, tag);
+
+        VCancel(cancel)
+    }
+
+    /// Takes a scheduled Runnable of `tag`, if any.
+    pub fn take_runnable(tag: usize) -> Option<VRunnable> {
+        let mut q = QUEUES.lock().unwrap();
+        q.as_mut()
+            .and_then(|m| m.get_mut(&tag))
+            .and_then(|v| v.pop())
+            .map(VRunnable)
+    }
+
+    /// Number of scheduled Runnables of `tag`.
+    pub fn queued(tag: usize) -> usize {
+        let q = QUEUES.lock().unwrap();
+        q.as_ref()
+            .and_then(|m| m.get(&tag))
+            .map(|v| v.len())
+            .unwrap_or(0)
+    }
+
+    impl VRunnable {
+        pub fn run(self) {
+            self.0.run()
+        }
+    }
+
+    impl VCancel {
+        pub fn cancel(self) {
+            self.0.cancel()
+        }
+    }
+
+    impl VPromise {
+        pub fn poll(&self) -> VStage {
+            match self.0.poll() {
+                Stage::Ready(v) => VStage::Ready(v),
+                Stage::Pending => VStage::Pending,
+                Stage::Cancelled => VStage::Cancelled,
+            }
+        }
+    }
+}
